@@ -1,6 +1,7 @@
 package main
 
 import (
+	"strconv"
 	"fmt"
 	"math"
 	"math/big"
@@ -202,6 +203,55 @@ func propC11(c *ctx) error {
 		}
 	}
 	res.Distribution["edge_pairs"] = len(edgeInts) * len(edgeFloats)
+	// float32 against float64 around float32's rounding: a float32 operand stands for the float64 value it widens to
+	// exactly, in == as in the ordering operators (0.1 as float32 is NOT 0.1)
+	{
+		seeds := []float64{0.1, 0.3, 1.0 / 3, 2.5, 16777217, 1e10, 3.4e38, -0.7, 1e-7, 100.01}
+		for _, f := range seeds {
+			f32 := float32(f)
+			w := float64(f32) // what the float32 really holds
+			cands := []float64{f, w, math.Nextafter(w, math.Inf(1)), math.Nextafter(w, math.Inf(-1))}
+			for _, g := range cands {
+				for _, form := range []string{"var", "lit"} {
+					if form == "lit" && (g < 0 || g > 1e15 || g < 1e-4) {
+						continue
+					}
+					for _, swap := range []bool{false, true} {
+						x := numOperand{vF32(f32), "a", nil, "float32"}
+						y := numOperand{vF64(g), "b", nil, "float64"}
+						if form == "lit" {
+							y = numOperand{vNil(), strconv.FormatFloat(g, 'f', -1, 64), nil, "floatlit"}
+						}
+						fx, fy := w, g
+						if swap {
+							x, y = y, x
+							if x.expr == "b" {
+								x.expr, y.expr = "b", "a"
+							}
+							fx, fy = g, w
+						}
+						data := vMap(kv{"a", vF32(f32)}, kv{"b", vF64(g)})
+						got, _, err := evalPair(x, y, data)
+						if err != nil {
+							return err
+						}
+						res.eval(fmt.Sprintf("f32|%v|%v|%s|%v", f, g, form, swap), true, J{"a": x.expr, "b": y.expr, "data": data.j})
+						want := map[string]bool{"<": fx < fy, "==": fx == fy, ">": fx > fy, "<=": fx <= fy, ">=": fx >= fy, "!=": fx != fy}
+						res.S3Checked++
+						res.count("float32_vs_float64_pairs")
+						for _, op := range ops {
+							ws := fmt.Sprintf("ok:bool:%v", want[op])
+							if got[op] != ws {
+								res.violate(J{"src": x.expr + " " + op + " " + y.expr, "env": data.j, "a": x.desc, "b": y.desc}, ws, got[op],
+									"float32 against float64: the six comparisons are not those of the exactly widened values")
+								break
+							}
+						}
+					}
+				}
+			}
+		}
+	}
 	// duality of == and != on non-numeric operands
 	others := []val{vStr("a"), vStr(""), vStr("b"), vBool(true), vBool(false), vNil(), vInt(1), vF64(1), vStr("1"), vIntSlice(1), vMap(kv{"k", vInt(1)})}
 	for _, x := range others {
